@@ -2,7 +2,12 @@
 // may use; every operation is a scheduling point of the controlled scheduler.
 package atomic
 
-import "github.com/flanglet/kanzi-go/v2/zverif/vcoop"
+import (
+	realatomic "sync/atomic"
+	"unsafe"
+
+	"github.com/flanglet/kanzi-go/v2/zverif/vcoop"
+)
 
 func LoadInt32(p *int32) int32                      { return vcoop.LoadInt32(p) }
 func StoreInt32(p *int32, v int32)                  { vcoop.StoreInt32(p, v) }
@@ -45,3 +50,109 @@ func (x *Bool) Load() bool                    { return vcoop.LoadInt32(&x.v) != 
 func (x *Bool) Store(v bool)                  { vcoop.StoreInt32(&x.v, b2i(v)) }
 func (x *Bool) Swap(n bool) bool              { return vcoop.SwapInt32(&x.v, b2i(n)) != 0 }
 func (x *Bool) CompareAndSwap(o, n bool) bool { return vcoop.CompareAndSwapInt32(&x.v, b2i(o), b2i(n)) }
+
+// ---- unsigned and pointer-sized values: mapped onto the signed primitives (same memory) ----
+
+func i32(p *uint32) *int32 { return (*int32)(unsafe.Pointer(p)) }
+func i64(p *uint64) *int64 { return (*int64)(unsafe.Pointer(p)) }
+
+func LoadUint32(p *uint32) uint32                      { return uint32(vcoop.LoadInt32(i32(p))) }
+func StoreUint32(p *uint32, v uint32)                  { vcoop.StoreInt32(i32(p), int32(v)) }
+func CompareAndSwapUint32(p *uint32, o, n uint32) bool { return vcoop.CompareAndSwapInt32(i32(p), int32(o), int32(n)) }
+func SwapUint32(p *uint32, n uint32) uint32            { return uint32(vcoop.SwapInt32(i32(p), int32(n))) }
+func AddUint32(p *uint32, d uint32) uint32             { return uint32(vcoop.AddInt32(i32(p), int32(d))) }
+func LoadUint64(p *uint64) uint64                      { return uint64(vcoop.LoadInt64(i64(p))) }
+func StoreUint64(p *uint64, v uint64)                  { vcoop.StoreInt64(i64(p), int64(v)) }
+func CompareAndSwapUint64(p *uint64, o, n uint64) bool { return vcoop.CompareAndSwapInt64(i64(p), int64(o), int64(n)) }
+func SwapUint64(p *uint64, n uint64) uint64            { return uint64(vcoop.SwapInt64(i64(p), int64(n))) }
+func AddUint64(p *uint64, d uint64) uint64             { return uint64(vcoop.AddInt64(i64(p), int64(d))) }
+
+func LoadUintptr(p *uintptr) uintptr { return uintptr(LoadUint64((*uint64)(unsafe.Pointer(p)))) }
+func StoreUintptr(p *uintptr, v uintptr) {
+	StoreUint64((*uint64)(unsafe.Pointer(p)), uint64(v))
+}
+func CompareAndSwapUintptr(p *uintptr, o, n uintptr) bool {
+	return CompareAndSwapUint64((*uint64)(unsafe.Pointer(p)), uint64(o), uint64(n))
+}
+func AddUintptr(p *uintptr, d uintptr) uintptr {
+	return uintptr(AddUint64((*uint64)(unsafe.Pointer(p)), uint64(d)))
+}
+
+func LoadPointer(p *unsafe.Pointer) unsafe.Pointer {
+	vcoop.Point(vcoop.OpLoad, unsafe.Pointer(p))
+	return realatomic.LoadPointer(p)
+}
+func StorePointer(p *unsafe.Pointer, v unsafe.Pointer) {
+	vcoop.Point(vcoop.OpStore, unsafe.Pointer(p))
+	realatomic.StorePointer(p, v)
+}
+func SwapPointer(p *unsafe.Pointer, v unsafe.Pointer) unsafe.Pointer {
+	vcoop.Point(vcoop.OpStore, unsafe.Pointer(p))
+	return realatomic.SwapPointer(p, v)
+}
+func CompareAndSwapPointer(p *unsafe.Pointer, o, n unsafe.Pointer) bool {
+	vcoop.Point(vcoop.OpStore, unsafe.Pointer(p))
+	return realatomic.CompareAndSwapPointer(p, o, n)
+}
+
+type Uint32 struct{ v uint32 }
+
+func (x *Uint32) Load() uint32                    { return LoadUint32(&x.v) }
+func (x *Uint32) Store(v uint32)                  { StoreUint32(&x.v, v) }
+func (x *Uint32) Swap(n uint32) uint32            { return SwapUint32(&x.v, n) }
+func (x *Uint32) CompareAndSwap(o, n uint32) bool { return CompareAndSwapUint32(&x.v, o, n) }
+func (x *Uint32) Add(d uint32) uint32             { return AddUint32(&x.v, d) }
+
+type Uint64 struct{ v uint64 }
+
+func (x *Uint64) Load() uint64                    { return LoadUint64(&x.v) }
+func (x *Uint64) Store(v uint64)                  { StoreUint64(&x.v, v) }
+func (x *Uint64) Swap(n uint64) uint64            { return SwapUint64(&x.v, n) }
+func (x *Uint64) CompareAndSwap(o, n uint64) bool { return CompareAndSwapUint64(&x.v, o, n) }
+func (x *Uint64) Add(d uint64) uint64             { return AddUint64(&x.v, d) }
+
+type Uintptr struct{ v uintptr }
+
+func (x *Uintptr) Load() uintptr                    { return LoadUintptr(&x.v) }
+func (x *Uintptr) Store(v uintptr)                  { StoreUintptr(&x.v, v) }
+func (x *Uintptr) CompareAndSwap(o, n uintptr) bool { return CompareAndSwapUintptr(&x.v, o, n) }
+func (x *Uintptr) Add(d uintptr) uintptr            { return AddUintptr(&x.v, d) }
+
+// Pointer and Value: the operation is a scheduling point, the content is handled by the real type
+type Pointer[T any] struct{ p realatomic.Pointer[T] }
+
+func (x *Pointer[T]) Load() *T {
+	vcoop.Point(vcoop.OpLoad, unsafe.Pointer(x))
+	return x.p.Load()
+}
+func (x *Pointer[T]) Store(v *T) {
+	vcoop.Point(vcoop.OpStore, unsafe.Pointer(x))
+	x.p.Store(v)
+}
+func (x *Pointer[T]) Swap(v *T) *T {
+	vcoop.Point(vcoop.OpStore, unsafe.Pointer(x))
+	return x.p.Swap(v)
+}
+func (x *Pointer[T]) CompareAndSwap(o, n *T) bool {
+	vcoop.Point(vcoop.OpStore, unsafe.Pointer(x))
+	return x.p.CompareAndSwap(o, n)
+}
+
+type Value struct{ v realatomic.Value }
+
+func (x *Value) Load() any {
+	vcoop.Point(vcoop.OpLoad, unsafe.Pointer(x))
+	return x.v.Load()
+}
+func (x *Value) Store(v any) {
+	vcoop.Point(vcoop.OpStore, unsafe.Pointer(x))
+	x.v.Store(v)
+}
+func (x *Value) Swap(v any) any {
+	vcoop.Point(vcoop.OpStore, unsafe.Pointer(x))
+	return x.v.Swap(v)
+}
+func (x *Value) CompareAndSwap(o, n any) bool {
+	vcoop.Point(vcoop.OpStore, unsafe.Pointer(x))
+	return x.v.CompareAndSwap(o, n)
+}
